@@ -1784,6 +1784,14 @@ pub fn supervise(check: &'static dyn Check, tier: Tier) -> i32 {
     let ev_path = ev_dir.join(format!("{prop}.json"));
     std::fs::write(&ev_path, serde_json::to_string_pretty(&evidence).unwrap() + "\n").expect("write evidence");
 
+    // findings tolerated inside generated families (CaseCtx::tolerate_known) are reported as well
+    for (id, n) in &stats.known {
+        if let Some(f) = kf.findings.iter().find(|f| &f.id == id && f.status == "open") {
+            if !stats.known_lines.iter().any(|l| l.contains(&format!(" {id} "))) {
+                stats.known_lines.insert(format!("KNOWN-FINDING: property={} {} {} [{} generated case(s)]", prop, f.id, f.what, n));
+            }
+        }
+    }
     for l in &stats.known_lines {
         println!("{l}");
     }
